@@ -191,6 +191,13 @@ pub struct Layout {
     /// xor.dat is a symbolic link (absolute target in the sibling directory)
     #[serde(default, skip_serializing_if = "is_false")]
     pub xor_symlink: bool,
+    /// the target of every symlinked blk file is itself a link to a content-addressed name
+    /// (`objects/SHA256-…`, as git-annex / stow / dedup stores do): the blk number is in the entry's name only
+    #[serde(default, skip_serializing_if = "is_false")]
+    pub link_chain: bool,
+    /// an unrelated (stale) xor.dat lying next to the targets of symlinked blk files
+    #[serde(default, skip_serializing_if = "Option::is_none")]
+    pub side_xor: Option<Bytes>,
 }
 
 #[derive(Clone, Serialize, Deserialize, PartialEq, Eq, Debug, Hash)]
